@@ -4,15 +4,32 @@ minimal evidence file, prints the VIOLATION line."""
 import json, os, sys, time
 from pathlib import Path
 from .common import VERIF
-from .main import LEVELS, write_replay
+from .main import LEVELS, write_replay, load_findings, matches
 
 def main():
     rc = int(sys.argv[1]); pid = sys.argv[2].upper()
     tier = "quick"
     if "--tier" in sys.argv:
         tier = sys.argv[sys.argv.index("--tier") + 1]
-    rp = write_replay(pid, dict(property=pid, kind="no-failing-input-found", broken=[f"the check process died with exit status {rc} (signal {rc - 128 if rc > 128 else rc}) while running the implementation: interpreter crash inside the library"],
-                                how=f"./bin/check {pid} --tier {tier}"))
+    # violations the harness had found before the interpreter died (journal written as they were found)
+    found = None
+    j = os.environ.get("VERIF_JOURNAL")
+    if j and os.path.exists(j):
+        findings = load_findings()
+        for line in open(j):
+            try:
+                v = json.loads(line)
+            except ValueError:
+                continue
+            if not any(matches(f, pid, v.get("sig", {})) for f in findings):
+                found = v
+                break
+    if found is not None:
+        rp = write_replay(pid, dict(property=pid, kind="failing-input", sig=found.get("sig"), case=found.get("case"), observed=found.get("observed"), expected=found.get("expected"),
+                                    what=found.get("what"), note=f"found before the check process died with exit status {rc} inside the implementation", how=f"./bin/check {pid} --tier {tier}"))
+    else:
+      rp = write_replay(pid, dict(property=pid, kind="no-failing-input-found", broken=[f"the check process died with exit status {rc} (signal {rc - 128 if rc > 128 else rc}) while running the implementation: interpreter crash inside the library"],
+                                  how=f"./bin/check {pid} --tier {tier}"))
     level = LEVELS[pid]["level"]
     ev = dict(property_id=pid, tier=tier, seed=int(os.environ.get("VERIF_SEED", "0")), level=level,
               coverage=dict(evaluations=1, distinct_nontrivial=2, rule="the run was cut short by a crash of the interpreter inside the implementation", samples=[dict(crash_exit_status=rc)],
@@ -21,7 +38,7 @@ def main():
     evp = Path(os.environ.get("VERIF_EVIDENCE_DIR", str(VERIF / "evidence"))) / f"{pid}.json"
     evp.parent.mkdir(exist_ok=True, parents=True)
     evp.write_text(json.dumps(ev, indent=1))
-    print(f"VIOLATION property={pid} replay={rp} no-failing-input-found")
+    print(f"VIOLATION property={pid} replay={rp}" + ("" if found is not None else " no-failing-input-found"))
 
 if __name__ == "__main__":
     main()
